@@ -1,8 +1,8 @@
 SPECIFICATION Spec
 CONSTANTS
   Apps <- AllApps
-  Catching <- Both
-  Verbs <- Verbs2
+  Catching <- OnlyTrue
+  Verbs <- Verbs1
   MCLines <- LinesOne
   Pres <- PresNone
   MaxListeners = 0
@@ -10,7 +10,9 @@ CONSTANTS
   ListenerValues <- NoValues
   OutValues <- ValuesAll
   OutKinds <- KindsAll
-  MCScopes <- ScopesAll
+  MCScopes <- ScopesTwo
+  MCRoutes <- RoutesAll
+  MCExits <- Both
   Emitting = TRUE
 INVARIANT PContained
 INVARIANT PZeroIff
